@@ -132,7 +132,7 @@ fin_h!(c01_std_v2, 2, 0, false, false, 8, 6);
 fin_h!(c01_fast_v2, 2, 0, true, false, 8, 6);
 //@ prop=C01 tier=quick cost=200 fns="Mp4Writer::finalize,finalize_standard,compute_interleave_schedule,SampleTables::from_samples" bound="2 video + 1 audio samples, all u64 pts (video reordering excluded while KF-C01 is listed), all key flags" unwind=6 stubs="build_moov_box(recording stand-in)" timeout=2400 mem=10
 fin_h!(c01_std_v2a1, 2, 1, false, true, 8, 6);
-//@ prop=C01 tier=quick cost=300 fns="Mp4Writer::finalize,finalize_fast_start,compute_interleave_schedule,SampleTables::from_samples" bound="fast start, 2 video + 1 audio samples, all u64 pts, key flags K N K" unwind=6 stubs="build_moov_box(recording stand-in)" timeout=2400 mem=14
+//@ prop=C01 tier=thorough cost=300 fns="Mp4Writer::finalize,finalize_fast_start,compute_interleave_schedule,SampleTables::from_samples" bound="fast start, 2 video + 1 audio samples, all u64 pts, key flags K N K" unwind=6 stubs="build_moov_box(recording stand-in)" timeout=2400 mem=14
 fin_h!(c01_fast_v2a1, 2, 1, true, true, 8, 6);
 //@ prop=C01 tier=thorough cost=120 fns="Mp4Writer::finalize,finalize_standard,compute_interleave_schedule" bound="1 video + 1 audio sample" unwind=6 stubs="build_moov_box(recording stand-in)" covers_optional="reordered|in-order" mem=10
 fin_h!(c01_std_v1a1, 1, 1, false, true, 8, 6);
@@ -167,6 +167,30 @@ pub fn c01_reordered_video_with_audio() {
     assert!(r.is_ok());
     if replay_mode() {
         native_finalize_check::<2, 1>(&mp4h::sink(&w).log, &vpts, &[true, false], &apts, true, false);
+        core::mem::forget((w, r));
+        return;
+    }
+    let v = final_call(&c).video;
+    let sink = mp4h::sink(&w);
+    assert!(Some(v.chunk_offsets[0] as u64) == sink.pos_of(vtag(0)), "video sample 0 offset points at its own payload");
+    core::mem::forget((w, r));
+}
+// the same in the fast-start layout (final offsets of the second pass)
+//@ prop=C01 tier=quick cost=200 fns="Mp4Writer::finalize,finalize_fast_start,compute_interleave_schedule" bound="2 video + 1 audio samples, video pts strictly decreasing, fast start" unwind=6 stubs="build_moov_box(recording stand-in)" timeout=1200 mem=8
+#[kani::proof]
+#[kani::unwind(6)]
+#[kani::stub(muxide::invariant_ppt::__assert_invariant_impl, crate::stubs::assert_invariant_stub)]
+#[kani::stub(muxide::muxer::mp4::build_moov_box, muxide::verif_hooks::mp4::verif::moov_recording_stub)]
+pub fn c01_reordered_video_with_audio_fast() {
+    let vpts: [u64; 2] = kani::any();
+    kani::assume(vpts[0] > vpts[1] && vpts[0] < (1 << 63));
+    let apts: [u64; 1] = kani::any();
+    let c = carrier(8);
+    let mut w = build_writer::<2, 1>(RecSink::new(), vpts, [true, false], apts, true);
+    let r = w.finalize(&c.track, None, true);
+    assert!(r.is_ok());
+    if replay_mode() {
+        native_finalize_check::<2, 1>(&mp4h::sink(&w).log, &vpts, &[true, false], &apts, true, true);
         core::mem::forget((w, r));
         return;
     }
